@@ -314,6 +314,27 @@ class LinkPlugin(ListPlugin):
         return NotImplemented
 
 
+def LInv_side(side, h, E):
+    def M(h, t): return h.P(t) if side == 'pre' else h.S(t)
+    def O(h, t): return h.S(t) if side == 'pre' else h.P(t)
+    return {
+        'C01/M1-links-symmetric': ForAll([a_, b_], Implies(And(a_ != null, b_ != null), mem(M(h, b_), a_) == mem(O(h, a_), b_)), patterns=[mem(M(h, b_), a_), mem(O(h, a_), b_)]),
+        'ND-no-link-listed-twice': ForAll([t_], Implies(t_ != null, And(nodup(h.P(t_)), nodup(h.S(t_)))), patterns=[h.pre[t_]]),
+        'NN-no-None-in-links': ForAll([t_, a_], Implies(And(t_ != null, Or(mem(h.P(t_), a_), mem(h.S(t_), a_))), a_ != null), patterns=[mem(h.P(t_), a_), mem(h.S(t_), a_)]),
+        'O1-list-objects-distinct': And(ForAll([t_, u_], Implies(And(t_ != null, u_ != null), And(h.pre[t_] != h.suc[u_], Implies(t_ != u_, And(h.pre[t_] != h.pre[u_], h.suc[t_] != h.suc[u_])))),
+                                               patterns=[MultiPattern(h.pre[t_], h.suc[u_]), MultiPattern(h.pre[t_], h.pre[u_]), MultiPattern(h.suc[t_], h.suc[u_])]),
+                                        ForAll([t_, u_], Implies(And(t_ != null, u_ != null), And(h.chl[t_] != h.pre[u_], h.chl[t_] != h.suc[u_])), patterns=[MultiPattern(h.chl[t_], h.pre[u_]), MultiPattern(h.chl[t_], h.suc[u_])]),
+                                        ForAll([t_], Implies(t_ != null, And(h.pre[t_] != LR.null, h.suc[t_] != LR.null)), patterns=[h.pre[t_]])),
+        'SYNC-ghost-relation-mirrors-the-lists': ForAll([t_, a_], Implies(t_ != null, E[t_][a_] == mem(M(h, t_), a_)), patterns=[E[t_][a_]]),
+        'C01/M2-dependency-relation-acyclic': AcycP(E),
+        'C01/X1-no-link-along-the-hierarchy': ForAll([a_, b_], Implies(And(b_ != null, mem(M(h, b_), a_)), And(Not(Desc(h.par, a_, b_)), Not(Desc(h.par, b_, a_)), a_ != b_)), patterns=[mem(M(h, b_), a_)]),
+    }
+
+
+LINK_LABS = ['C01/M1-links-symmetric', 'ND-no-link-listed-twice', 'NN-no-None-in-links', 'O1-list-objects-distinct', 'SYNC-ghost-relation-mirrors-the-lists',
+             'C01/M2-dependency-relation-acyclic', 'C01/X1-no-link-along-the-hierarchy']
+
+
 def link_setter_unit(side):
     mine, other = ('pre', 'suc') if side == 'pre' else ('suc', 'pre')
     pname = 'predecessors' if side == 'pre' else 'successors'
@@ -324,19 +345,7 @@ def link_setter_unit(side):
         def mref(h, t): return h.pre[t] if side == 'pre' else h.suc[t]
         def oref(h, t): return h.suc[t] if side == 'pre' else h.pre[t]
 
-        def LInv(h, E):
-            return {
-                'C01/M1-links-symmetric': ForAll([a_, b_], Implies(And(a_ != null, b_ != null), mem(M(h, b_), a_) == mem(O(h, a_), b_)), patterns=[mem(M(h, b_), a_), mem(O(h, a_), b_)]),
-                'ND-no-link-listed-twice': ForAll([t_], Implies(t_ != null, And(nodup(h.P(t_)), nodup(h.S(t_)))), patterns=[h.pre[t_]]),
-                'NN-no-None-in-links': ForAll([t_, a_], Implies(And(t_ != null, Or(mem(h.P(t_), a_), mem(h.S(t_), a_))), a_ != null), patterns=[mem(h.P(t_), a_), mem(h.S(t_), a_)]),
-                'O1-list-objects-distinct': And(ForAll([t_, u_], Implies(And(t_ != null, u_ != null), And(h.pre[t_] != h.suc[u_], Implies(t_ != u_, And(h.pre[t_] != h.pre[u_], h.suc[t_] != h.suc[u_])))),
-                                                       patterns=[MultiPattern(h.pre[t_], h.suc[u_]), MultiPattern(h.pre[t_], h.pre[u_]), MultiPattern(h.suc[t_], h.suc[u_])]),
-                                                ForAll([t_, u_], Implies(And(t_ != null, u_ != null), And(h.chl[t_] != h.pre[u_], h.chl[t_] != h.suc[u_])), patterns=[MultiPattern(h.chl[t_], h.pre[u_]), MultiPattern(h.chl[t_], h.suc[u_])]),
-                                                ForAll([t_], Implies(t_ != null, And(h.pre[t_] != LR.null, h.suc[t_] != LR.null)), patterns=[h.pre[t_]])),
-                'SYNC-ghost-relation-mirrors-the-lists': ForAll([t_, a_], Implies(t_ != null, E[t_][a_] == mem(M(h, t_), a_)), patterns=[E[t_][a_]]),
-                'C01/M2-dependency-relation-acyclic': AcycP(E),
-                'C01/X1-no-link-along-the-hierarchy': ForAll([a_, b_], Implies(And(b_ != null, mem(M(h, b_), a_)), And(Not(Desc(h.par, a_, b_)), Not(Desc(h.par, b_, a_)), a_ != b_)), patterns=[mem(M(h, b_), a_)]),
-            }
+        def LInv(h, E): return LInv_side(side, h, E)
         LABS = ['C01/M1-links-symmetric', 'ND-no-link-listed-twice', 'NN-no-None-in-links', 'O1-list-objects-distinct', 'SYNC-ghost-relation-mirrors-the-lists',
                 'C01/M2-dependency-relation-acyclic', 'C01/X1-no-link-along-the-hierarchy']
 
@@ -929,3 +938,142 @@ def insert_unit():
 
 
 UNITS.append(insert_unit())
+
+
+# ================================================================================================ link list facades: append / remove
+LFAC = REF('LinkFacade')
+LFAC_CLASSES = dict(TASK_CLASSES); LFAC_CLASSES['LinkFacade'] = {'_parent': T, '_list': LR}
+
+
+def link_setter_call(eng, st, side, me, V_, line):
+    """contract of Task.predecessors.setter / successors.setter at a call site with a list value V_ of non-None tasks (proved by link_setter_unit)"""
+    h0 = H(eng, st); E0 = st.ghost['E']
+    M = (lambda h, t: h.P(t)) if side == 'pre' else (lambda h, t: h.S(t))
+    O = (lambda h, t: h.S(t)) if side == 'pre' else (lambda h, t: h.P(t))
+    for lab, g in LInv_side(side, h0, E0).items(): st.oblige(f'req@link.setter/{lab}', g, f'@{line}')
+    st.oblige('req@link.setter/C01/F4-no-task-is-its-own-ancestor', And(Acyc(h0.par), h0.par[null] == null), f'@{line}')
+    st.oblige('req@link.setter/hidden-root-has-reserved-id', ForAll([w_], Implies(w_ != W.null, And(h0.root[w_] != null, h0.tid[h0.root[w_]] == EMPTY, h0.par[h0.root[w_]] == null)), patterns=[h0.root[w_]]), f'@{line}')
+    st.oblige('req@link.setter/value-of-public-non-None-tasks', And(me != null, ForAll([x], Implies(mem(V_, x), And(x != null, h0.tid[x] != EMPTY)))), f'@{line}')
+    rc = Exists([x], And(mem(V_, x), Or(x == me, Desc(h0.par, x, me), Desc(h0.par, me, x), TCp(E0, me, x))))
+    exc = st.fork(rc); ok = st.fork(Not(rc))
+    for k in ('PyList.elems', 'Task._Task__predecessors', 'Task._Task__successors'): eng.havoc(ok, k)
+    E1 = Const(f'E!{fresh_id()}', REL); ok.ghost['E'] = E1
+    h1 = H(eng, ok)
+    for g in LInv_side(side, h1, E1).values(): ok.assume(g)
+    ok.assume(And(ForAll([x], mem(M(h1, me), x) == mem(V_, x), patterns=[mem(M(h1, me), x)]), nodup(M(h1, me)),
+                  ForAll([a_, b_], Implies(And(mem(M(h1, me), a_), mem(M(h1, me), b_)), (idx(M(h1, me), a_) < idx(M(h1, me), b_)) == (idx(V_, a_) < idx(V_, b_))), patterns=[MultiPattern(idx(M(h1, me), a_), idx(M(h1, me), b_))]),
+                  ForAll([t_], Implies(And(t_ != null, t_ != me), M(h1, t_) == M(h0, t_)), patterns=[M(h1, t_)]),
+                  ForAll([a_, b_], Implies(a_ != null, mem(O(h1, a_), b_) == If(b_ == me, mem(V_, a_), mem(O(h0, a_), b_))), patterns=[mem(O(h1, a_), b_)]),
+                  h1.par == h0.par, h1.chl == h0.chl, ForAll([t_], Implies(t_ != null, h1.ch(t_) == h0.ch(t_)), patterns=[h1.chl[t_]])))
+    return [(ok, V(None, NONE)), (exc, Raise('RuntimeError'))], rc
+
+
+def link_facade_unit(side, op):
+    cls = '_PredecessorsList' if side == 'pre' else '_SuccessorsList'
+    pname = 'predecessors' if side == 'pre' else 'successors'
+
+    def build():
+        M = (lambda h, t: h.P(t)) if side == 'pre' else (lambda h, t: h.S(t))
+        O = (lambda h, t: h.S(t)) if side == 'pre' else (lambda h, t: h.P(t))
+        mref = (lambda h, t: h.pre[t]) if side == 'pre' else (lambda h, t: h.suc[t])
+        par_ = lambda c, w='cur': Select(c.fld('LinkFacade', '_parent', w), c['self'])
+        fl = lambda c, w='cur': Select(c.fld('LinkFacade', '_list', w), c['self'])
+        hc = lambda c: H(c.eng, c.st); h0 = lambda c: H(c.eng, c.pre)
+        state = {}
+
+        class FacadePlugin(ListPlugin):
+            def getattr_hook(self_, eng, s, o, attr, node):
+                return None
+
+            def ev_Attribute(self_, eng, e, st):
+                # self.__parent (name-mangled per class) -> the facade's owner task; owner.predecessors / .successors -> the owner's list object
+                if isinstance(e.value, ast.Name) and e.value.id == 'self' and e.attr == '__parent':
+                    return [(st, V(Select(eng.field(st, 'LinkFacade', '_parent'), st.env['self'].e), T))]
+                if e.attr == pname and isinstance(e.ctx, ast.Load):
+                    s, o = eng.ev1(e.value, st)
+                    if o.s == T:
+                        s.oblige('safe/AttributeError-None', o.e != null, f'@{e.lineno}')
+                        return [(s, V(mref(H(eng, s), o.e), LR))]
+                return NotImplemented
+
+            def ev_ListComp(self_, eng, e, st):
+                g = e.generators[0]
+                if not (isinstance(e.elt, ast.Name) and e.elt.id == g.target.id): return NotImplemented
+                s, xs = eng.ev1(g.iter, st); lv = self_.listval(eng, s, xs, e.lineno)
+                if not g.ifs: return [(s, V(lv, LT))]
+                if len(g.ifs) == 1 and ast.unparse(g.ifs[0]).replace(' ', '') == f'{g.target.id}!=task':
+                    tk_ = s.env['task'].e; Fv = fresh('without', LT)
+                    s.assume(And(ForAll([x], mem(Fv, x) == And(mem(lv, x), x != tk_), patterns=[mem(Fv, x)]), Implies(nodup(lv), nodup(Fv)),
+                                 ForAll([a_, b_], Implies(And(mem(Fv, a_), mem(Fv, b_)), (idx(Fv, a_) < idx(Fv, b_)) == (idx(lv, a_) < idx(lv, b_))), patterns=[MultiPattern(idx(Fv, a_), idx(Fv, b_))])))
+                    return [(s, V(Fv, LT))]
+                raise Unsupported('comprehension filter')
+
+            def ev_List(self_, eng, e, st):
+                if len(e.elts) != 1: return NotImplemented
+                s, v = eng.ev1(e.elts[0], st)
+                Lv = fresh('one', LT); s.assume(And(ln(Lv) == 1, at(Lv, 0) == v.e, nodup(Lv), ForAll([x], mem(Lv, x) == (x == v.e), patterns=[mem(Lv, x)])))
+                return [(s, V(Lv, LT))]
+
+            def binop(self_, eng, st, k, l_, r, line):
+                if k == 'Add' and l_.s == LT and r.s == LT: return V(cat(l_.e, r.e), LT)
+                return NotImplemented
+
+            def assign(self_, eng, s, target, v):
+                if isinstance(target, ast.Attribute) and target.attr == pname and v.s == LT:
+                    s2, o = eng.ev1(target.value, s)
+                    if op == 'remove':
+                        # cut: a task's current links never give the setter a reason to reject (they passed its checks when they were made:
+                        # X1 for the hierarchy, M2 + SYNC for cycles) - proved here clause by clause, then used
+                        hh = H(eng, s2); E0 = s2.ghost['E']; m = o.e; cur = M(hh, m); cut = []
+                        for lab, g in (('not-the-task-itself', lambda y: y != m), ('not-an-ancestor', lambda y: Not(Desc(hh.par, y, m))), ('not-a-descendant', lambda y: Not(Desc(hh.par, m, y))),
+                                       ('not-on-a-cycle', lambda y: And(E0[m][y], Not(TCp(E0, m, y))))):
+                            f = ForAll([x], Implies(mem(cur, x), g(x)), patterns=[mem(cur, x)])
+                            s2.oblige(f'lemma/C01/current-links-are-acceptable/{lab}', f, f'@{target.lineno}'); cut.append(f)
+                        for f in cut: s2.assume(f)
+                    res, rc = link_setter_call(eng, s2, side, o.e, v.e, target.lineno)
+                    state['rc'] = rc
+                    return [(s3, r if isinstance(r, Raise) else FALL) for s3, r in res]
+                return NotImplemented
+        me = lambda c: par_(c, 'pre')
+        V0 = lambda c: cat(M(h0(c), me(c)), _one(c['task'])) if op == 'append' else None
+
+        def rc(c):
+            if op == 'remove': return c['task'] == null
+            hh = h0(c); E0 = c.pre.ghost['E']; t = c['task']; m = me(c)
+            bad = lambda x: Or(x == m, Desc(hh.par, x, m), Desc(hh.par, m, x), TCp(E0, m, x))
+            return Or(t == null, bad(t), Exists([x], And(mem(M(hh, m), x), bad(x))))
+        reqs = [(l_, (lambda l_: lambda c: LInv_side(side, hc(c), c.st.ghost['E'])[l_])(l_)) for l_ in LINK_LABS] + \
+               [('facade-of-a-public-task', lambda c: And(c['self'] != LFAC.null, par_(c) != null, fl(c) == mref(hc(c), par_(c)), hc(c).tid[par_(c)] != EMPTY, Implies(c['task'] != null, hc(c).tid[c['task']] != EMPTY),
+                                                        ForAll([x], Implies(mem(M(hc(c), par_(c)), x), hc(c).tid[x] != EMPTY), patterns=[mem(M(hc(c), par_(c)), x)]))),
+                ('C01/F4-no-task-is-its-own-ancestor', lambda c: And(Acyc(hc(c).par), hc(c).par[null] == null)),
+                ('hidden-root-has-reserved-id', lambda c: ForAll([w_], Implies(w_ != W.null, And(hc(c).root[w_] != null, hc(c).tid[hc(c).root[w_]] == EMPTY, hc(c).par[hc(c).root[w_]] == null)), patterns=[hc(c).root[w_]]))]
+        unchanged = lambda c: And(hc(c).elems == h0(c).elems, hc(c).pre == h0(c).pre, hc(c).suc == h0(c).suc, hc(c).par == h0(c).par)
+        ens = [(l_, (lambda l_: lambda c: LInv_side(side, hc(c), c.st.ghost['E'])[l_])(l_)) for l_ in LINK_LABS]
+        if op == 'append':
+            ens += [('C16/list-is-the-old-list-plus-the-task', lambda c: ForAll([x], mem(M(hc(c), me(c)), x) == Or(mem(M(h0(c), me(c)), x), x == c['task']))),
+                    ('C16/old-links-keep-their-order', lambda c: ForAll([a_, b_], Implies(And(mem(M(h0(c), me(c)), a_), mem(M(h0(c), me(c)), b_)),
+                                                                                          (idx(M(hc(c), me(c)), a_) < idx(M(hc(c), me(c)), b_)) == (idx(M(h0(c), me(c)), a_) < idx(M(h0(c), me(c)), b_))))),
+                    ('C16/a-new-link-comes-last', lambda c: Implies(Not(mem(M(h0(c), me(c)), c['task'])), ForAll([a_], Implies(mem(M(h0(c), me(c)), a_), idx(M(hc(c), me(c)), a_) < idx(M(hc(c), me(c)), c['task']))))),
+                    ('C16/mirror-side-updated', lambda c: ForAll([a_, b_], Implies(a_ != null, mem(O(hc(c), a_), b_) == If(And(b_ == me(c), a_ == c['task']), BoolVal(True), mem(O(h0(c), a_), b_))))),
+                    ('C16/links-of-all-other-tasks-unchanged', lambda c: ForAll([t_], Implies(And(t_ != null, t_ != me(c)), M(hc(c), t_) == M(h0(c), t_)))),
+                    ('C01/accepted-only-without-a-reason-to-reject', lambda c: Not(rc(c)))]
+        else:
+            ens += [('C16/return-value-tells-membership', lambda c: c.result.e == mem(M(h0(c), me(c)), c['task'])),
+                    ('C16/list-is-the-old-list-without-the-task-order-kept', lambda c: And(ForAll([x], mem(M(hc(c), me(c)), x) == And(mem(M(h0(c), me(c)), x), x != c['task'])),
+                                                                                         ForAll([a_, b_], Implies(And(mem(M(hc(c), me(c)), a_), mem(M(hc(c), me(c)), b_)),
+                                                                                                                  (idx(M(hc(c), me(c)), a_) < idx(M(hc(c), me(c)), b_)) == (idx(M(h0(c), me(c)), a_) < idx(M(h0(c), me(c)), b_)))))),
+                    ('C16/mirror-side-updated', lambda c: ForAll([a_, b_], Implies(a_ != null, mem(O(hc(c), a_), b_) == And(mem(O(h0(c), a_), b_), Not(And(b_ == me(c), a_ == c['task'])))))),
+                    ('C16/links-of-all-other-tasks-unchanged', lambda c: ForAll([t_], Implies(And(t_ != null, t_ != me(c)), M(hc(c), t_) == M(h0(c), t_))))]
+        fc = {'sig': {'self': LFAC, 'task': T}, 'ghost': {'E': S('REL', REL)},
+              'requires': reqs,
+              'raises': {'RuntimeError': [('C15/rejected-call-changes-nothing', unchanged), ('C01/rejected-only-for-None-or-a-stated-reason', rc)]},
+              'ensures': ens}
+        return Engine(F, f'{cls}.{op}', {'fn:_check_not_none': c_check_not_none}, LFAC_CLASSES, fc, plugins=[FacadePlugin()]), LIST_AX + LIST_CAT_AX + GRAPH_AX + DEP_AX
+    return Unit(f'{cls}.{op}', F, build, ['C01', 'C15', 'C16'], timeout_ms=15000)
+
+
+def _one(t):
+    return None
+
+
+UNITS += [link_facade_unit('pre', 'append'), link_facade_unit('pre', 'remove'), link_facade_unit('suc', 'append'), link_facade_unit('suc', 'remove')]
